@@ -20,6 +20,7 @@ Sinks == {<<<<0, 0>>, <<0, 0>>>>} \cup {<<<<k, -5>>, <<0, 0>>>> : k \in SinkFail
 
 Next ==
   \/ ncalls = 0 /\ \E o \in Opts, sk \in Sinks : RunCall(1, o, sk)
+  \/ ncalls = 0 /\ \E o \in Opts : o.rerr = R_DEFAULT /\ o.input = -1 /\ (RunSimple(1, o) \/ RunSimple(1, [o EXCEPT !.rout = R_DISCARD]))
   \/ Resume
   \/ Tick
   \/ ChildExit(1, 3)
